@@ -182,6 +182,76 @@ func runReplay(out *bufio.Writer, path string) int {
 				fmt.Fprintf(out, "%s | %s\n", req, resp)
 				n++
 			}
+		case "KP":
+			// KP id tag cfg×8 start cells name author normM
+			if len(f) >= 16 {
+				cfg := parseCfgWire(f[3:11])
+				st, _ := strconv.Atoi(f[11])
+				w := gmars.WarriorData{Code: parseCellsWire(f[12]), Start: st, Name: string(unhexd(f[13])), Author: string(unhexd(f[14]))}
+				normM, _ := strconv.ParseUint(f[15], 10, 64)
+				resp := ""
+				fl := guarded(10*time.Second, func() {
+					sim, err := gmars.NewSimulator(cfg)
+					if err != nil {
+						resp = "err"
+						return
+					}
+					wr, _ := sim.AddWarrior(&w)
+					pw, ok := wr.(interface{ LoadCodePMARS() string })
+					if !ok {
+						resp = "err"
+						return
+					}
+					var sb, nb strings.Builder
+					for _, c := range w.Code {
+						sb.WriteString(c.String() + "\n")
+						nb.WriteString(c.NormString(gmars.Address(normM)) + "\n")
+					}
+					resp = hexd([]byte(pw.LoadCodePMARS())) + " " + hexd([]byte(sb.String())) + " " + hexd([]byte(nb.String()))
+				})
+				if fl != "" {
+					resp = fl
+				}
+				fmt.Fprintf(out, "%s | %s\n", req, resp)
+				n++
+			}
+		case "KD":
+			// KD id tag m cycles type wi addr cell : the report is replayed on a simulator whose
+			// cell at addr is the recorded one and whose cycle counter is the recorded one
+			if len(f) >= 9 {
+				m, _ := strconv.ParseUint(f[3], 10, 64)
+				cc, _ := strconv.Atoi(f[4])
+				typ, _ := strconv.Atoi(f[5])
+				wi, _ := strconv.Atoi(f[6])
+				addr, _ := strconv.ParseUint(f[7], 10, 64)
+				cells := parseCellsWire(f[8])
+				resp := ""
+				fl := guarded(10*time.Second, func() {
+					cfg := gmars.NewQuickConfig(gmars.ICWS94, gmars.Address(m), 8, 1000, 1)
+					sim, err := gmars.NewReportingSimulator(cfg)
+					if err != nil || len(cells) != 1 {
+						resp = "err"
+						return
+					}
+					// the recorded cell is loaded at the report's address and never executed: the
+					// warrior spins on the cell behind it, which brings the cycle counter up
+					w := gmars.WarriorData{Code: []gmars.Instruction{cells[0], {Op: gmars.JMP, OpMode: gmars.B}}, Start: 1}
+					sim.AddWarrior(&w)
+					sim.SpawnWarrior(0, gmars.Address(addr))
+					for i := 0; i < cc; i++ {
+						sim.RunCycle()
+					}
+					rep := gmars.NewDebugReporter(sim)
+					resp = hexd([]byte(captureStdout(func() {
+						rep.Report(gmars.Report{Type: gmars.ReportType(typ), Cycle: cc, WarriorIndex: wi, Address: gmars.Address(addr)})
+					})))
+				})
+				if fl != "" {
+					resp = fl
+				}
+				fmt.Fprintf(out, "%s | %s\n", req, resp)
+				n++
+			}
 		case "X":
 			if len(f) >= 13 {
 				cfg := parseCfgWire(f[3:11])
